@@ -109,10 +109,13 @@ const (
 	opEOFNoRows
 	opWrappedEOF
 	opError
+	opReplaceAppend  // the callback puts NEW column objects (2 rows) into the input slots
+	opReplaceEOFRows // new column objects holding one row, then io.EOF
+	opReplaceEOF     // new, empty column objects, then io.EOF
 	nOps
 )
 
-var opNames = [nOps]string{"append1", "append3", "reset+append2", "overwrite", "nil", "eof-with-rows", "reset+eof", "reset+wrapped-eof", "error"}
+var opNames = [nOps]string{"append1", "append3", "reset+append2", "overwrite", "nil", "eof-with-rows", "reset+eof", "reset+wrapped-eof", "error", "replace+append2", "replace+row+eof", "replace-empty+eof"}
 
 type c09case struct {
 	col     int
@@ -146,8 +149,14 @@ func (k c09case) model() (blocks [][]int, fail bool) {
 			cur = append(cur, fresh())
 		case opAppend3:
 			cur = append(cur, fresh(), fresh(), fresh())
-		case opResetAppend:
+		case opResetAppend, opReplaceAppend:
 			cur = []int{fresh(), fresh()}
+		case opReplaceEOFRows:
+			cur = []int{fresh()}
+			return true, false
+		case opReplaceEOF:
+			cur = []int{}
+			return true, false
 		case opOverwrite:
 			for i := range cur {
 				cur[i] = fresh()
@@ -239,10 +248,35 @@ func body09(k c09case, progress bool) Body {
 		if k.two {
 			q.Input = append(q.Input, proto.InputColumn{Name: "u2", Data: ucol})
 		}
+		replace := func() {
+			// fresh column objects in the input slots (how value-type columns and pre-built
+			// batches are streamed); the old objects keep their rows
+			col = sc.mk()
+			if inf, ok := col.(proto.Inferable); ok {
+				_ = inf.Infer(proto.ColumnType(sc.typ)) // the caller prepares its own new column
+			}
+			q.Input[0].Data = col
+			if k.two {
+				ucol = u.mk()
+				q.Input[1].Data = ucol
+			}
+			cur = cur[:0]
+		}
 		q.OnInput = func(ctx context.Context) error {
 			op := ops[round]
 			round++
 			switch op {
+			case opReplaceAppend:
+				replace()
+				appendRow(fresh())
+				appendRow(fresh())
+			case opReplaceEOFRows:
+				replace()
+				appendRow(fresh())
+				return io.EOF
+			case opReplaceEOF:
+				replace()
+				return io.EOF
 			case opAppend1:
 				appendRow(fresh())
 			case opAppend3:
@@ -389,7 +423,7 @@ func body09(k c09case, progress bool) Body {
 
 // C09 — streamed INSERT sends one faithful block per input round, then a terminator.
 func C09(c *vk.Ctx) {
-	c.Rule("all OnInput histories of <= n rounds (quick 3, thorough 4) over {append 1, append 3, Reset+append 2, overwrite every row in place, return nil unchanged, io.EOF with rows, Reset+io.EOF, Reset+wrapped io.EOF, other error} (each history is closed by Reset+io.EOF) x initial rows {0, 2; 30000 (a first block of 240 KB and more) for histories of <= 2 rounds over UInt64 / String / LowCardinality(String)} x column {UInt64, FixedString(4), String, LowCardinality(String), Array(String), Enum8 via ColEnum}, alone or next to a UInt64 column, x {plain, LZ4}; every case is one execution of the real Connect + Do on the default schedule (thorough: plus all schedules up to 1 preemption while the server sends Progress). Oracle: the blocks parsed from the client stream by the reference model equal the model's snapshots of the column contents at the start of each round, followed by exactly one empty block. distinct_nontrivial = cases.")
+	c.Rule("all OnInput histories of <= n rounds (quick 3, thorough 4) over {append 1, append 3, Reset+append 2, overwrite every row in place, return nil unchanged, io.EOF with rows, Reset+io.EOF, Reset+wrapped io.EOF, other error, NEW column objects put into the input slots with 2 rows, with 1 row + io.EOF, empty + io.EOF} (each history is closed by Reset+io.EOF) x initial rows {0, 2; 30000 (a first block of 240 KB and more) for histories of <= 2 rounds over UInt64 / String / LowCardinality(String)} x column {UInt64, FixedString(4), String, LowCardinality(String), Array(String), Enum8 via ColEnum}, alone or next to a UInt64 column, x {plain, LZ4}; every case is one execution of the real Connect + Do on the default schedule (thorough: plus all schedules up to 1 preemption while the server sends Progress). Oracle: the blocks parsed from the client stream by the reference model equal the model's snapshots of the column contents at the start of each round, followed by exactly one empty block. distinct_nontrivial = cases.")
 	quick := c.Quick()
 	maxLen := 3
 	if !quick {
